@@ -1,4 +1,4 @@
-import FlowRecordProofs.Lemmas.Compose
+import FlowRecordProofs.Lemmas.ComposeMore
 /-!
 C15 — record composition follows the documented precedence rules.
 Property theorems only, all by list induction over association-list models (`Model/Compose.lean`); values are
@@ -19,10 +19,7 @@ theorem C15_merge_order (replace : Bool) (descs : List (List (Str × Str))) :
   have e : ((fun p : Str × Str => p.2) ∘ fun p : Str × Str => (p.2, p.1)) = (·.1) := rfl
   rw [e]
   have e2 : (descs.flatMap nameTypes).map (·.1) = (C15_allTuples descs).map (·.2) := by
-    unfold C15_allTuples nameTypes
-    induction descs with
-    | nil => rfl
-    | cons d ds ih => simp only [List.flatMap_cons, List.map_append, ih, List.map_map, id]; rfl
+    rw [flatMap_nameTypes, keys_nameTypes]; rfl
   rw [← e2]; exact h
 
 /-- … hence: the fields of the first descriptor (when its names are distinct) come first, in order, then the
@@ -32,22 +29,9 @@ theorem C15_merge_first_then_unseen (replace : Bool) (d : List (Str × Str)) (ds
     (mergeFields replace (d :: ds)).map (·.2) =
       d.map (·.2) ++ (firstOcc ((C15_allTuples ds).map (·.2))).filter (fun n => !(d.map (·.2)).contains n) := by
   rw [C15_merge_order]
-  have happ : ∀ (a b : List Str), firstOcc (a ++ b) = firstOcc a ++ (firstOcc b).filter (fun n => !(firstOcc a).contains n) := by
-    intro a
-    induction a with
-    | nil => intro b; simp [firstOcc]
-    | cons x a ih =>
-      intro b
-      simp only [List.cons_append, firstOcc, ih, List.filter_append, List.filter_filter]
-      congr 2
-      apply List.filter_congr
-      intro y _
-      by_cases hy : y = x
-      · subst hy; simp
-      · simp [hy, mem_firstOcc]
   unfold C15_allTuples
   simp only [List.flatMap_cons, id, List.map_append]
-  rw [happ, firstOcc_nodup_eq _ hd]
+  rw [firstOcc_append, firstOcc_nodup_eq _ hd]
 
 /-- FIRST WINS for field types: without `replace`, the type of every merged field is the type of its first
     occurrence among all field tuples. -/
@@ -56,12 +40,7 @@ theorem C15_merge_first_wins (descs : List (List (Str × Str))) (n : Str) :
   have e : nameTypes (mergeFields false descs) = mergeMap false descs := by
     simp [nameTypes, mergeFields, List.map_map, Function.comp_def]
   rw [e, mergeMap_flat, alGet_foldl_noreplace, alGet_nil]
-  have e2 : descs.flatMap nameTypes = nameTypes (C15_allTuples descs) := by
-    unfold C15_allTuples nameTypes
-    induction descs with
-    | nil => rfl
-    | cons d ds ih => simp only [List.flatMap_cons, List.map_append, ih, id]
-  rw [e2]; simp
+  rw [flatMap_nameTypes]; simp [C15_allTuples]
 
 /-- LAST WINS for field types under `replace=True`: the type of every merged field is the type of its last
     occurrence (its position stays that of the first occurrence, `C15_merge_order`). -/
@@ -70,9 +49,310 @@ theorem C15_merge_last_wins_on_replace (descs : List (List (Str × Str))) (n : S
   have e : nameTypes (mergeFields true descs) = mergeMap true descs := by
     simp [nameTypes, mergeFields, List.map_map, Function.comp_def]
   rw [e, mergeMap_flat, alGet_foldl_replace, alGet_nil]
-  have e2 : descs.flatMap nameTypes = nameTypes (C15_allTuples descs) := by
-    unfold C15_allTuples nameTypes
-    induction descs with
-    | nil => rfl
-    | cons d ds ih => simp only [List.flatMap_cons, List.map_append, ih, id]
-  rw [e2]; simp
+  rw [flatMap_nameTypes]; simp [C15_allTuples]
+
+/-- no declared field name of any of the records is a reserved name (validation guarantees it, C06) -/
+abbrev C15_noReserved {V : Type} (recs : List (Rec V)) : Prop := noReserved recs
+
+/-- VALUES of an extended record, for every list of records: each slot (merged field or metadata field, other
+    than the always re-stamped `_version`) holds the value found first when the records' slots are searched in
+    priority order — the given order, reversed under `replace`. -/
+theorem C15_extend_values {V : Type} (none : Str → V) (ver : V) (replace : Bool) (name : Option Str)
+    (r : Rec V) (others : List (Rec V)) (k : Str) (v : V) (hnr : C15_noReserved (r :: others))
+    (hk : k ∈ (mergeFields replace ((r :: others).map (·.fields))).map (·.2) ∨ k ∈ reservedNames)
+    (hv : k ≠ versionName)
+    (hget : alGet ((if replace then (r :: others).reverse else r :: others).flatMap (·.slots)) k = some v) :
+    alGet (extendRecord none ver replace name r others).slots k = some v :=
+  extend_values none ver replace name r others k v hnr hk hv hget
+
+/-- FIRST WINS for values: the value comes from the first record that has the slot. -/
+theorem C15_extend_first_wins {V : Type} (none : Str → V) (ver : V) (name : Option Str)
+    (r : Rec V) (others pre post : List (Rec V)) (x : Rec V) (k : Str) (v : V) (hnr : C15_noReserved (r :: others))
+    (hsplit : r :: others = pre ++ x :: post) (hpre : ∀ p ∈ pre, k ∉ keys p.slots) (hx : alGet x.slots k = some v)
+    (hk : k ∈ (mergeFields false ((r :: others).map (·.fields))).map (·.2) ∨ k ∈ reservedNames)
+    (hv : k ≠ versionName) :
+    alGet (extendRecord none ver false name r others).slots k = some v :=
+  extend_first_wins none ver name r others pre post x k v hnr hsplit hpre hx hk hv
+
+/-- LAST WINS for values under `replace=True`: the value comes from the last record that has the slot. -/
+theorem C15_extend_last_wins_on_replace {V : Type} (none : Str → V) (ver : V) (name : Option Str)
+    (r : Rec V) (others pre post : List (Rec V)) (x : Rec V) (k : Str) (v : V) (hnr : C15_noReserved (r :: others))
+    (hsplit : r :: others = pre ++ x :: post) (hpost : ∀ p ∈ post, k ∉ keys p.slots) (hx : alGet x.slots k = some v)
+    (hk : k ∈ (mergeFields true ((r :: others).map (·.fields))).map (·.2) ∨ k ∈ reservedNames)
+    (hv : k ≠ versionName) :
+    alGet (extendRecord none ver true name r others).slots k = some v :=
+  extend_last_wins none ver name r others pre post x k v hnr hsplit hpost hx hk hv
+
+/-- The extended record's descriptor: merged fields, the first record's name unless renamed; its slots are the
+    merged names followed by the reserved metadata fields; `_version` is re-stamped. -/
+theorem C15_extend_shape {V : Type} (none : Str → V) (ver : V) (replace : Bool) (name : Option Str)
+    (r : Rec V) (others : List (Rec V)) (hnr : C15_noReserved (r :: others)) :
+    let out := extendRecord none ver replace name r others
+    out.name = name.getD r.name ∧
+    out.fields = mergeFields replace ((r :: others).map (·.fields)) ∧
+    keys out.slots = out.fields.map (·.2) ++ reservedNames ∧
+    alGet out.slots versionName = some ver :=
+  extend_shape none ver replace name r others hnr
+
+/-- the datetime fields `iter_timestamped_records` loops over (`record._desc.getfields("datetime")`) -/
+def C15_dtNames {V : Type} (r : Rec V) : List Str := ((fieldMap r.fields).filter (·.2 == dtType)).map (·.1)
+
+/-- … for a well-formed record these are its datetime fields in field order -/
+theorem C15_ts_field_order {V : Type} (r : Rec V) (hr : WF r) :
+    C15_dtNames r = (r.fields.filter (·.1 == dtType)).map (·.2) := by
+  unfold C15_dtNames
+  rw [fieldMap_nodup r.fields hr.nodup]
+  unfold nameTypes
+  induction r.fields with
+  | nil => rfl
+  | cons f fs ih =>
+    simp only [List.map_cons, List.filter_cons]
+    by_cases h : (f.1 == dtType) = true <;> simp [h, ih]
+
+/-- PER-TIMESTAMP EXPANSION (the loop as the code runs it: the loop's record is re-bound in every round, the
+    timestamp and the metadata are read from the original). For every well-formed record, every value type, every
+    position and name of its datetime fields — `ts` and `ts_description` included:
+    no datetime field ⇒ the record itself; otherwise one output per datetime field, in field order, and output `i`
+    is named like the original, has fields `ts, ts_description` + the original fields not called ts/ts_description,
+    `ts` = the ORIGINAL record's value of the i-th datetime field, `ts_description` = that field's name, every other
+    original field with its original value, and the original's `_source`, `_classification`, `_generated`. -/
+theorem C15_ts {V : Type} (none : Str → V) (ver : V) (nameVal : Str → V) (r : Rec V) (hr : WF r) :
+    (C15_dtNames r = [] → tsExpand none ver nameVal r = [r]) ∧
+    (C15_dtNames r ≠ [] →
+      (tsExpand none ver nameVal r).length = (C15_dtNames r).length ∧
+      ∀ (i : Nat) (o : Rec V) (f : Str), (tsExpand none ver nameVal r)[i]? = some o → (C15_dtNames r)[i]? = some f →
+        o.name = r.name ∧
+        o.fields = tsFields ++ r.fields.filter notTs ∧
+        alGet o.slots tsName = alGet r.slots f ∧
+        alGet o.slots tsDescName = some (nameVal f) ∧
+        (∀ g ∈ r.fields, notTs g = true → alGet o.slots g.2 = alGet r.slots g.2) ∧
+        alGet o.slots (cps "_source") = alGet r.slots (cps "_source") ∧
+        alGet o.slots (cps "_classification") = alGet r.slots (cps "_classification") ∧
+        alGet o.slots (cps "_generated") = alGet r.slots (cps "_generated") ∧
+        alGet o.slots versionName = some ver) := by
+  have hsub : ∀ f ∈ C15_dtNames r, f ∈ r.fields.map (·.2) := by
+    intro f hf
+    rw [C15_ts_field_order r hr] at hf
+    obtain ⟨g, hg, rfl⟩ := List.mem_map.mp hf
+    exact List.mem_map.mpr ⟨g, (List.mem_filter.mp hg).1, rfl⟩
+  constructor
+  · intro h
+    unfold tsExpand
+    unfold C15_dtNames at h
+    simp [h]
+  · intro h
+    have hne : (C15_dtNames r).isEmpty = false := by
+      cases hd : C15_dtNames r with
+      | nil => exact absurd hd h
+      | cons a l => rfl
+    have hexp : tsExpand none ver nameVal r = tsLoop none ver nameVal r r (C15_dtNames r) := by
+      unfold tsExpand
+      unfold C15_dtNames at hne ⊢
+      simp only [hne, Bool.false_eq_true, if_false]
+    rw [hexp]
+    obtain ⟨hlen, hall⟩ := ts_loop none ver nameVal r hr (C15_dtNames r) r (tsInv_refl r hr) hsub
+    refine ⟨hlen, ?_⟩
+    intro i o f ho hf
+    have := hall i o f ho hf
+    exact ⟨this.name, this.fields, this.ts, this.desc, this.keeps, this.source, this.classification,
+      this.generated, this.version⟩
+
+/-- GROUPED RECORD, flat view: for well-formed members the flat descriptor is the first-wins merge of the members'
+    descriptors (so `C15_merge_order` / `C15_merge_first_wins` describe its field order and types), and attribute
+    access returns the value of the first member that has the slot — metadata fields included. -/
+theorem C15_grouped_first_wins {V : Type} (members pre post : List (Rec V)) (x : Rec V) (k : Str) (v : V)
+    (hwf : ∀ m ∈ members, WF m) (hsplit : members = pre ++ x :: post) (hpre : ∀ p ∈ pre, k ∉ keys p.slots)
+    (hx : alGet x.slots k = some v) :
+    groupedFields members = mergeFields false (members.map (·.fields)) ∧ groupedGet members k = some v := by
+  refine ⟨groupedFields_eq members hwf, ?_⟩
+  unfold groupedGet
+  rw [chainGet_eq, hsplit]
+  have : ((pre ++ x :: post).map (·.slots)).flatten = (pre ++ x :: post).flatMap (·.slots) := by
+    simp [List.flatMap_def]
+  rw [this]
+  exact alGet_flatMap_first (·.slots) pre post x k v hpre hx
+
+/-- … and a name no member has is not an attribute of the group. -/
+theorem C15_grouped_missing {V : Type} (members : List (Rec V)) (k : Str) (h : ∀ m ∈ members, k ∉ keys m.slots) :
+    groupedGet members k = Option.none := by
+  unfold groupedGet
+  rw [chainGet_eq, alGet_eq_none_iff]
+  intro hk
+  obtain ⟨p, hp, hpk⟩ := List.mem_map.mp hk
+  obtain ⟨sl, hsl, hps⟩ := List.mem_flatten.mp hp
+  obtain ⟨m, hm, rfl⟩ := List.mem_map.mp hsl
+  exact h m hm (List.mem_map.mpr ⟨p, hps, hpk⟩)
+
+/-- `_replace` changes ONLY the named slots: it fails exactly when a keyword is not a slot; otherwise descriptor and
+    slot list are those of the original, a named slot holds the given value, every other slot (except the re-stamped
+    `_version`) its original value. -/
+theorem C15_replace_only_named {V : Type} (ver : V) (r : Rec V) (kvs : List (Str × V)) :
+    (replaceRec ver r kvs = Option.none ↔ ∃ p ∈ kvs, p.1 ∉ keys r.slots) ∧
+    (∀ out, replaceRec ver r kvs = some out →
+      out.name = r.name ∧ out.fields = r.fields ∧ keys out.slots = keys r.slots ∧
+      ∀ k ∈ keys r.slots, k ≠ versionName →
+        (∀ v, alGet kvs k = some v → alGet out.slots k = some v) ∧
+        (k ∉ keys kvs → alGet out.slots k = alGet r.slots k)) := by
+  constructor
+  · unfold replaceRec
+    by_cases h : (kvs.any fun p => !(keys r.slots).contains p.1) = true
+    · simp only [h, if_true, true_iff]
+      obtain ⟨p, hp, hc⟩ := List.any_eq_true.mp h
+      exact ⟨p, hp, by simpa using hc⟩
+    · simp only [h, Bool.false_eq_true, if_false]
+      constructor
+      · intro hh; cases hh
+      · rintro ⟨p, hp, hc⟩
+        exfalso; apply h
+        exact List.any_eq_true.mpr ⟨p, hp, by simpa using hc⟩
+  · intro out hout
+    have hshape : out.name = r.name ∧ out.fields = r.fields ∧ keys out.slots = keys r.slots := by
+      unfold replaceRec at hout
+      split at hout
+      · cases hout
+      · simp only [Option.some.injEq] at hout
+        subst hout
+        simp [keys, List.map_map, Function.comp_def]
+    refine ⟨hshape.1, hshape.2.1, hshape.2.2, ?_⟩
+    intro k hk hv
+    have := alGet_replaceRec ver r out kvs hout k hk hv
+    constructor
+    · intro v hkv; rw [this, hkv]; rfl
+    · intro hnk
+      rw [this, (alGet_eq_none_iff kvs k).mpr hnk]; rfl
+
+/-- PROJECTION (`rdump -F` / `-X`, `RecordFieldRewriter`): with a field list, the new descriptor has exactly the
+    requested names that exist in the record and are not excluded, in the REQUESTED order, each with its type in the
+    record; without a field list, the record's fields minus the excluded ones, in record order. -/
+theorem C15_projection_fields (fields exclude : List Str) (desc : List (Str × Str)) :
+    (fields ≠ [] →
+      (projectFields fields exclude desc).map (·.2) =
+        fields.filter (fun n => !exclude.contains n && (desc.map (·.2)).contains n) ∧
+      ∀ f ∈ projectFields fields exclude desc, alGet (fieldMap desc) f.2 = some f.1) ∧
+    (fields = [] → exclude ≠ [] → projectFields fields exclude desc = desc.filter (fun f => !exclude.contains f.2)) ∧
+    (fields = [] → exclude = [] → projectFields fields exclude desc = desc) := by
+  have hkeys : keys (fieldMap desc) = firstOcc (desc.map (·.2)) := by
+    unfold fieldMap; rw [keys_odOfList, keys_nameTypes]
+  refine ⟨?_, ?_, ?_⟩
+  · intro hf
+    have hne : fields.isEmpty = false := by cases fields <;> simp_all
+    unfold projectFields
+    simp only [hne, Bool.false_and, Bool.false_eq_true, if_false, Bool.not_false, if_true]
+    constructor
+    · clear hf hne
+      induction fields with
+      | nil => rfl
+      | cons n ns ih =>
+        simp only [List.filterMap_cons, List.filter_cons]
+        by_cases hx : exclude.contains n = true
+        · simp only [hx, if_true, Bool.not_true, Bool.false_and, Bool.false_eq_true, if_false]; exact ih
+        · simp only [hx, Bool.false_eq_true, if_false, Bool.not_false, Bool.true_and]
+          by_cases hm : n ∈ desc.map (·.2)
+          · have hk : n ∈ keys (fieldMap desc) := by rw [hkeys]; exact (mem_firstOcc _ _).mpr hm
+            have := (alGet_isSome_iff (fieldMap desc) n).mpr hk
+            cases hg : alGet (fieldMap desc) n with
+            | none => simp [hg] at this
+            | some t =>
+              have hc : (desc.map (·.2)).contains n = true := by simp [hm]
+              simp only [Option.map_some, hc, if_true, List.map_cons]
+              rw [ih]
+          · have hk : n ∉ keys (fieldMap desc) := by rw [hkeys]; exact fun h => hm ((mem_firstOcc _ _).mp h)
+            have hg := (alGet_eq_none_iff (fieldMap desc) n).mpr hk
+            have hc : (desc.map (·.2)).contains n = false := by simp [hm]
+            simp only [hg, Option.map_none, hc, Bool.false_eq_true, if_false]
+            exact ih
+    · intro f hfm
+      obtain ⟨n, _, hn⟩ := List.mem_filterMap.mp hfm
+      by_cases hx : exclude.contains n = true
+      · rw [if_pos hx] at hn; cases hn
+      · simp only [hx, Bool.false_eq_true, if_false] at hn
+        cases hg : alGet (fieldMap desc) n with
+        | none => simp [hg] at hn
+        | some t =>
+          simp only [hg, Option.map_some, Option.some.injEq] at hn
+          subst hn; exact hg
+  · intro hf hx
+    subst hf
+    have : exclude.isEmpty = false := by cases exclude <;> simp_all
+    simp [projectFields, this]
+  · intro hf hx
+    subst hf; subst hx
+    simp [projectFields]
+
+/-- … and projection changes no value: every slot of the projected record (kept field or metadata field, other
+    than the re-stamped `_version`) holds the original record's value. -/
+theorem C15_projection_values {V : Type} (none : Str → V) (ver : V) (fields exclude : List Str) (r : Rec V) (hr : WF r)
+    (k : Str) (hk : k ∈ keys (rewrite none ver fields exclude r).slots) (hv : k ≠ versionName) :
+    alGet (rewrite none ver fields exclude r).slots k = alGet r.slots k := by
+  unfold rewrite at hk ⊢
+  by_cases h0 : (fields.isEmpty && exclude.isEmpty) = true
+  · simp only [h0, if_true]
+  · simp only [h0, Bool.false_eq_true, if_false] at hk ⊢
+    rw [keys_initFromDict] at hk
+    -- the kept names are names of the record
+    have hsubset : ∀ n ∈ (projectFields fields exclude r.fields).map (·.2), n ∈ r.fields.map (·.2) := by
+      intro n hn
+      obtain ⟨f, hf, rfl⟩ := List.mem_map.mp hn
+      unfold projectFields at hf
+      simp only [h0, Bool.false_eq_true, if_false] at hf
+      split at hf
+      · obtain ⟨m, _, hm⟩ := List.mem_filterMap.mp hf
+        by_cases hx : exclude.contains m = true
+        · rw [if_pos hx] at hm; cases hm
+        · simp only [hx, Bool.false_eq_true, if_false] at hm
+          cases hg : alGet (fieldMap r.fields) m with
+          | none => simp [hg] at hm
+          | some t =>
+            simp only [hg, Option.map_some, Option.some.injEq] at hm
+            subst hm
+            have : m ∈ keys (fieldMap r.fields) := (alGet_isSome_iff _ _).mp (by simp [hg])
+            unfold fieldMap at this
+            rw [keys_odOfList, keys_nameTypes] at this
+            exact (mem_firstOcc _ _).mp this
+      · exact List.mem_map.mpr ⟨f, (List.mem_filter.mp hf).1, rfl⟩
+    have hnores : ∀ n ∈ (projectFields fields exclude r.fields).map (·.2), n ∉ reservedNames :=
+      fun n hn => hr.nores n (hsubset n hn)
+    rw [keys_slotTypes _ hnores] at hk
+    have hkr : k ∈ keys r.slots := by
+      rw [hr.slots]
+      rcases List.mem_append.mp hk with h | h
+      · exact List.mem_append_left _ (hsubset k ((mem_firstOcc _ _).mp h))
+      · exact List.mem_append_right _ h
+    cases hg : alGet r.slots k with
+    | none => exact absurd ((alGet_isSome_iff _ _).mpr hkr) (by simp [hg])
+    | some v =>
+      apply alGet_initFromDict _ _ _ _ _ k v _ hv hg
+      rw [keys_slotTypes _ hnores]; exact hk
+
+/-- The source has the statements the model transcribes (`merge_record_descriptors`, `extend_record`, the prelude
+    and loop facts of `iter_timestamped_records`, `_replace`, `init_from_dict`, `record_descriptor_for_fields`):
+    re-decided on every run against the statements extracted from the working tree. -/
+theorem C15_source_shape :
+    Gen.mergeStatements = ["field_map = collections.OrderedDict()", "for desc in descriptors: for ftype, fname in desc.get_field_tuples(): if not replace and fname in field_map: continue field_map[fname] = ftype", "if name is None and descriptors: name = descriptors[0].name", "return RecordDescriptor(name, zip(field_map.values(), field_map.keys()))"] ∧
+    Gen.extendStatements = ["records = (record, *other_records)", "descriptors = tuple((rec._desc for rec in records))", "ExtendedRecord = merge_record_descriptors(descriptors, replace, name)", "kv_maps = tuple((rec._asdict() for rec in records))", "if replace: kv_maps = kv_maps[::-1]", "return ExtendedRecord.init_from_dict(collections.ChainMap(*kv_maps))"] ∧
+    Gen.tsPrelude = ["dt_fields = record._desc.getfields('datetime')", "if not dt_fields: yield record return", "record_name = record._desc.name", "original = record"] ∧
+    Gen.tsLoopAssigns = ["ts_record", "record"] ∧
+    Gen.tsValueSource = "original" ∧
+    Gen.tsMetaKwargs = [("_source", "original"), ("_classification", "original"), ("_generated", "original")] ∧
+    Gen.tsExtendArg = "record" ∧
+    Gen.replaceStatements = ["result = self.__class__(*map(kwds.pop, self.__slots__, (getattr(self, k) for k in self.__slots__)))", "if kwds: raise ValueError('Got unexpected field names: {kwds!r}'.format(kwds=list(kwds)))", "return result"] ∧
+    Gen.initFromDictStatements = ["if not raise_unknown: rdict = {k: v for k, v in rdict.items() if k in self.recordType.__slots__}", "return self.recordType(**rdict)"] ∧
+    Gen.projectStatements = ["if not fields and (not exclude) and (not new_fields): return descriptor", "exclude = exclude or []", "desc_fields = []", "if fields: for fname in fields: if fname in exclude: continue field = descriptor.fields.get(fname, None) if field: desc_fields.append((field.typename, field.name)) else: desc_fields = [(ftype, fname) for ftype, fname in descriptor.get_field_tuples() if fname not in exclude]", "if new_fields: desc_fields.extend(new_fields)", "return RecordDescriptor(descriptor.name, desc_fields)"] :=
+  ⟨rfl, rfl, rfl, rfl, rfl, rfl, rfl, rfl, rfl, rfl⟩
+
+-- Non-vacuity: concrete records on which the hypotheses hold and the functions do what the theorems say.
+namespace C15_nonvacuous
+def rA : Rec Nat := ⟨cps "t/x", [(cps "datetime", cps "created"), (cps "datetime", cps "ts"), (cps "string", cps "a")],
+  [(cps "created", 10), (cps "ts", 20), (cps "a", 30), (cps "_source", 1), (cps "_classification", 2),
+   (cps "_generated", 3), (cps "_version", 4)]⟩
+example : WF rA := ⟨by decide, by decide, by decide⟩
+example : C15_dtNames rA = [cps "created", cps "ts"] := by decide
+-- the fixed defect: the second expanded record carries the ORIGINAL value of the field named ts (20, not 10)
+example : ((tsExpand (fun _ => 0) 4 (fun _ => 99) rA).map fun o => (alGet o.slots tsName, alGet o.slots (cps "a"),
+    alGet o.slots (cps "_source"))) = [(some 10, some 30, some 1), (some 20, some 30, some 1)] := by decide
+example : mergeFields false [[(cps "string", cps "a"), (cps "varint", cps "b")], [(cps "float", cps "b"), (cps "uint16", cps "c")]]
+    = [(cps "string", cps "a"), (cps "varint", cps "b"), (cps "uint16", cps "c")] := by decide
+example : mergeFields true [[(cps "string", cps "a"), (cps "varint", cps "b")], [(cps "float", cps "b"), (cps "uint16", cps "c")]]
+    = [(cps "string", cps "a"), (cps "float", cps "b"), (cps "uint16", cps "c")] := by decide
+example : projectFields [cps "a", cps "zz", cps "created"] [cps "created"] rA.fields = [(cps "string", cps "a")] := by decide
+end C15_nonvacuous
